@@ -18,7 +18,7 @@ from __future__ import annotations
 import ast
 
 from ..cfg import header_parts
-from ..flow import Defs, Scope, iterations, rejections
+from ..flow import Defs, Scope, absence_by_none, iterations, rejections
 from ..loader import FuncInfo, dotted, norm, walk_no_nested
 from ..report import Ctx
 from ..selftest import Mutant
@@ -202,6 +202,11 @@ def rule_siblings(ctx: Ctx) -> None:
                         f"`{norm(s_)}`: the stored element is indexed without np.asarray (a list element fails in this backend only)", f"origin of `{norm(s_.value)[:30]}` not traced", key=f"asarray {cls.name}.{mname} {norm(s_.value)[:30]}")
     ctx.floor("5-siblings", n, 4)
     fa, da = P.cls(f"{SA}._file.FileArray"), P.cls(f"{SA}._dict.DictArray")
+    for mname, fn in da.methods.items():
+        sites = absence_by_none(fn.node, ("_dict",))
+        if sites or mname in ("__getitem__", "to_array", "get_from_index", "has_index", "mask"):
+            ctx.add("5-siblings", fn, sites[0][0] if sites else fn.node, not sites, "presence of an element is decided by key membership" if not sites else
+                    f"`{sites[0][1]}.get(...)` compared with None decides whether an element exists: an element whose stored value IS None reads back as masked in this backend only (FileArray returns None)", key=f"none-is-a-value DictArray.{mname}")
     fg = fa.methods["__getitem__"]
     t = norm(fg.node)
     ctx.tri("5-siblings", fg, fg.node, "np.ma.masked" in t and "is_file()" in t, "np.ma.masked" not in t, "FileArray: a missing element reads as masked", "FileArray.__getitem__ never yields np.ma.masked: a missing element raises instead of reading as masked", key="file-missing")
